@@ -8,7 +8,7 @@
 (*  EscFeIsC1   - ESC x (x in @.._) acts like the C1 control x + 0x40;            *)
 (*  Strings     - string states emit nothing (except an interrupting C1/C0        *)
 (*                execute) and are left only by ST, BEL (OSC), ESC, CAN, SUB, C1. *)
-EXTENDS ParserRef, TLC
+EXTENDS ParserRef, Williams, TLC
 
 CONSTANTS Alphabet, MaxLen
 VARIABLES p, raw, n, ok
@@ -28,6 +28,13 @@ StepOKp(q, rw, c, r) ==
   /\ (q.state \in StringStates /\ c \notin Leavers) => r.out = None
   /\ Len(r.p.params) <= PARAMS_LEN /\ \A i \in 1..Len(r.p.params) : Len(r.p.params[i]) <= PARTS_LEN
   /\ EscFeIsC1(r.p)
+
+(* the transition function is Williams' table (+ the four named deviations), in every state, for every
+   character class - whatever the collected parameters and intermediate are *)
+ASSUME \A st \in States :
+         /\ WilliamsAgree([InitP EXCEPT !.state = st])
+         /\ WilliamsAgree([state |-> st, params |-> <<<<1>>, <<2, 3>>>>, inter |-> 63])
+ASSUME PrintT("@@ WILLIAMS-AGREE all 14 states x " \o ToString(Cardinality(WilliamsChars)) \o " characters x 2 backgrounds")
 
 Init == p = InitP /\ raw = <<>> /\ n = 0 /\ ok = TRUE
 Next ==
